@@ -42,3 +42,42 @@ package pebblev2
 //@   ensures callback_once: !old(d.closed) ==> calls(fn) == old(calls(fn)) + 1
 //@   ensures nothing_applied_on_failure: !old(d.closed) && ret(fn) != nil ==> calls_CommitPlain == old(calls_CommitPlain) && result == ret(fn)
 //@   ensures committed_on_success: !old(d.closed) && ret(fn) == nil ==> calls_CommitPlain == old(calls_CommitPlain) + 1
+
+// ---- iterators: the bounds handed to Pebble are the prefix and - when asked for - its upper bound --
+// Pebble's iterator is a dependency; what is under contract is what it is asked to do: start at the
+// prefix and, with withUpperBound, stop at dbutils.UpperBound(prefix) (characterised by content, so
+// that cloning the slices is fine), for the database, a snapshot and an indexed batch alike.
+//@ extern func github.com/cockroachdb/pebble/v2.(*DB).NewIter
+//@ extern func github.com/cockroachdb/pebble/v2.(*Batch).NewIter
+//@ extern func github.com/cockroachdb/pebble/v2.(*Snapshot).NewIter
+//@ extern func sync.(*RWMutex).RLock
+//@ extern func sync.(*RWMutex).RUnlock
+//@ extern func slices.Clone
+//@   ensures len(result) == len(s) && (forall j int :: 0 <= j && j < len(s) ==> result[j] == s[j])
+//@ func (*DB).NewIterator
+//@   props C15
+//@   arith int
+//@   nosafe
+//@   requires d != nil && d.db != nil
+//@   modifies *
+//@   callsite NewIter@*: from_the_prefix: $1 != nil && len($1.LowerBound) == len(prefix) && (forall j int :: 0 <= j && j < len(prefix) ==> $1.LowerBound[j] == prefix[j])
+//@   callsite NewIter@*: unbounded_only_if_asked: !withUpperBound ==> $1.UpperBound == nil
+//@   callsite NewIter@*: stops_at_the_prefix: withUpperBound ==> (($1.UpperBound == nil) <==> (forall j int :: 0 <= j && j < len(prefix) ==> prefix[j] == 255)) && ($1.UpperBound != nil ==> 1 <= len($1.UpperBound) && len($1.UpperBound) <= len(prefix) && $1.UpperBound[len($1.UpperBound)-1] == prefix[len($1.UpperBound)-1] + 1 && (forall j int :: 0 <= j && j < len($1.UpperBound)-1 ==> $1.UpperBound[j] == prefix[j]) && (forall j int :: len($1.UpperBound) <= j && j < len(prefix) ==> prefix[j] == 255))
+//@ func (*snapshot).NewIterator
+//@   props C15
+//@   arith int
+//@   nosafe
+//@   requires s != nil && s.snapshot != nil
+//@   modifies *
+//@   callsite NewIter@*: from_the_prefix: $1 != nil && len($1.LowerBound) == len(prefix) && (forall j int :: 0 <= j && j < len(prefix) ==> $1.LowerBound[j] == prefix[j])
+//@   callsite NewIter@*: unbounded_only_if_asked: !withUpperBound ==> $1.UpperBound == nil
+//@   callsite NewIter@*: stops_at_the_prefix: withUpperBound ==> (($1.UpperBound == nil) <==> (forall j int :: 0 <= j && j < len(prefix) ==> prefix[j] == 255)) && ($1.UpperBound != nil ==> 1 <= len($1.UpperBound) && len($1.UpperBound) <= len(prefix) && $1.UpperBound[len($1.UpperBound)-1] == prefix[len($1.UpperBound)-1] + 1 && (forall j int :: 0 <= j && j < len($1.UpperBound)-1 ==> $1.UpperBound[j] == prefix[j]) && (forall j int :: len($1.UpperBound) <= j && j < len(prefix) ==> prefix[j] == 255))
+//@ func (*batch).NewIterator
+//@   props C15
+//@   arith int
+//@   nosafe
+//@   requires b != nil
+//@   modifies *
+//@   callsite NewIter@*: from_the_prefix: $1 != nil && len($1.LowerBound) == len(lowerBound) && (forall j int :: 0 <= j && j < len(lowerBound) ==> $1.LowerBound[j] == lowerBound[j])
+//@   callsite NewIter@*: unbounded_only_if_asked: !withUpperBound ==> $1.UpperBound == nil
+//@   callsite NewIter@*: stops_at_the_prefix: withUpperBound ==> (($1.UpperBound == nil) <==> (forall j int :: 0 <= j && j < len(lowerBound) ==> lowerBound[j] == 255)) && ($1.UpperBound != nil ==> 1 <= len($1.UpperBound) && len($1.UpperBound) <= len(lowerBound) && $1.UpperBound[len($1.UpperBound)-1] == lowerBound[len($1.UpperBound)-1] + 1 && (forall j int :: 0 <= j && j < len($1.UpperBound)-1 ==> $1.UpperBound[j] == lowerBound[j]) && (forall j int :: len($1.UpperBound) <= j && j < len(lowerBound) ==> lowerBound[j] == 255))
